@@ -246,6 +246,14 @@ def run(ctx):
         out = run_case((case, rep.get('extra')))
         for b in out['bad']:
             ctx.violation(b, {'stream': 'hostile_ids', 'case': R.case_json(case), 'extra': rep.get('extra')})
+        res = out.get('res') or {'plans': [('bad', '')]}
+        p0 = res['plans'][0]
+        if not out['bad'] and p0[0] in ('ok', 'err') and not (p0[0] == 'ok' and (res.get('roots') is None or any(f['bytes'] is None for f in res['files'].values()))):
+            R.set_root(res['sbroot'])
+            term = cq.cpair(R.coq_cfg(case), R.coq_env(case), R.cs(case['profile']), R.cs(case['filter']), R.coq_obs(res),
+                            R.coq_manifests(res) if p0[0] == 'ok' else '[]')
+            for c in ctx.corr('hostile_ids', HEADER, 'check_hostile_full', 'case03', [(term, rep)]):
+                ctx.violation('model and implementation disagree on desired files / roots / manifest entries', c, no_input=True)
         return
     # ---- corpus first
     for name, case, expect in corpus_cases():
